@@ -724,6 +724,10 @@ func TestVerifNhsim(t *testing.T) {
 		}
 	case "pipe":
 		rec.keep = func(ev string) bool { return ev != "Enter" && ev != "Exit" && ev != "SMNew" }
+	case "member":
+		rec.keep = func(ev string) bool {
+			return ev == "Init" || ev == "CC" || ev == "Members" || ev == "Panic"
+		}
 	case "import":
 		rec.keep = func(ev string) bool {
 			return ev != "Send" && ev != "Save" && ev != "Enter" && ev != "Exit" && ev != "Inv" && ev != "Res" && ev != "Leader" && ev != "Boot"
@@ -758,6 +762,10 @@ func TestVerifNhsim(t *testing.T) {
 		}
 		if os.Getenv("VERIF_STORE") != "" {
 			p.store = os.Getenv("VERIF_STORE")
+		}
+		if mode == "member" {
+			nhScenarioMember(rec, tid, s, sms[(tid/2)%3], p.store, nhEnvInt("VERIF_ROUNDS", 14))
+			continue
 		}
 		if mode == "import" {
 			nhScenarioImport(rec, tid, s, sms[(tid/2)%3], p.store)
